@@ -99,10 +99,46 @@ def valgrind(ctx, mode, max_len):
     ctx.subruns.append({"engine": "vecmon " + mode, "sanitizer": "valgrind memcheck --leak-check=full on the release binary", "exhaustive_up_to_length": max_len})
 
 
+def asan(ctx, mode, max_len):
+    """AddressSanitizer + LeakSanitizer build of vecmon (nightly, -Zsanitizer=address)."""
+    env = dict(common.ENV)
+    env["RUSTFLAGS"] = "-Zsanitizer=address -Cforce-frame-pointers=yes"
+    env["CARGO_TARGET_DIR"] = os.path.join(common.WORK, "target-asan")
+    with common.Lock("cargo-harness-asan"):
+        rc, out, err = common.sh(["cargo", "+nightly", "build", "--offline", "-p", "vecmon", "--target", "x86_64-unknown-linux-gnu"], cwd=common.HARNESS, env=env, timeout=1800)
+    if rc != 0:
+        ctx.inconclusive.append("AddressSanitizer build of vecmon failed: %s" % "\n".join((err or "").splitlines()[-6:]))
+        return
+    binary = os.path.join(env["CARGO_TARGET_DIR"], "x86_64-unknown-linux-gnu", "debug", "vecmon")
+    renv = dict(common.ENV)
+    renv["ASAN_OPTIONS"] = "detect_leaks=1:halt_on_error=1"
+    nsh = 8
+    jobs = [("asan-%d" % s, [binary, mode, "--seed", str(ctx.seed), "--max-len", str(max_len), "--random", "40", "--max-random-len", "500", "--shard", str(s), "--nshards", str(nsh)], None, renv)
+            for s in range(nsh)]
+    clean = 0
+    for (label, rc, out, err, secs) in ctx.run_parallel(jobs, 3600):
+        rep = common.parse_json_tail(out)
+        m = __import__("re").search(r"ERROR: (AddressSanitizer|LeakSanitizer): ([^\n]*)", err or "")
+        if rc is None:
+            ctx.inconclusive.append("AddressSanitizer run %s timed out" % label)
+        elif m:
+            what = m.group(2).split(" on address")[0].split(" at pc")[0][:80]
+            ctx.violation("asan", "[asan] %s: %s | run: vecmon %s %s" % (m.group(1), what, mode, label), "%s asan %s" % (ctx.pid, what),
+                          {"stderr": (err or "")[:5000], "cmd": " ".join(jobs[0][1])})
+        elif rc != 0 or rep is None:
+            ctx.inconclusive.append("AddressSanitizer run %s ended with status %s" % (label, rc))
+        else:
+            clean += 1
+            absorb(ctx, rep, "asan")
+    ctx.count("asan.processes_clean", clean)
+    ctx.subruns.append({"engine": "vecmon " + mode, "sanitizer": "AddressSanitizer + LeakSanitizer (nightly -Zsanitizer=address, debug)", "exhaustive_up_to_length": max_len})
+
+
 def run(ctx):
     mode = MODE[ctx.pid]
     if ctx.pid == "C10":
         native(ctx, mode, 4 if ctx.quick else 8, 0, 0)
+        asan(ctx, mode, 4 if ctx.quick else 6)
         miri(ctx, mode, 2 if ctx.quick else 4, "", "miri-sb")
         if not ctx.quick:
             miri(ctx, mode, 3, "-Zmiri-tree-borrows", "miri-tb")
@@ -111,9 +147,11 @@ def run(ctx):
         return
     if ctx.quick:
         native(ctx, mode, 6, 150, 2000)
+        asan(ctx, mode, 5)
         miri(ctx, mode, 3, "", "miri-sb")
     else:
         native(ctx, mode, 9, 4000, 3000)
+        asan(ctx, mode, 7)
         miri(ctx, mode, 4 if ctx.pid == "C08" else 5, "", "miri-sb")
         miri(ctx, mode, 3, "-Zmiri-tree-borrows", "miri-tb")
         valgrind(ctx, mode, 5)
